@@ -338,6 +338,17 @@ def build_history(m, draw):
                 if not ms:
                     continue
                 me = draw(st.sampled_from(ms))
+                # a method of an ancestor is hidden when a class nearer to the handle's class
+                # defines a method (or static method) of the same name
+                hidden = False
+                for nearer in chain(hc):
+                    if nearer == level:
+                        break
+                    if any(isinstance(x, (M.Method, M.Static)) and x.name == me.name
+                           for x in classes[nearer]['decl'].members):
+                        hidden = True
+                if hidden:
+                    continue
                 cnt = draw(st.sampled_from(arities(me.args)))
                 got = call_args(me.args, cnt)
                 if got is None:
@@ -530,10 +541,9 @@ def check(case):
         # ---- trace
         w = exp.get('trace')
         if w is not None:
-            recs = [t for t in r['trace']]
-            while len(recs) > 1 and re.search(r'::(\w+)\|\(\)\|this=\d+\|$', recs[-1]):
-                recs = recs[:-1]
-            main = [t for t in recs if t.split('|')[0] == w['entity']]
+            # other records are construction noise (members / returned objects built with a
+            # declared default constructor); the call itself must appear exactly once
+            main = [t for t in r['trace'] if t.split('|')[0] == w['entity']]
             if len(main) != 1:
                 out.append(Failure('C11.entity', '%s: library recorded %s, expected one call of '
                                    '%s' % (label, r['trace'][:3], w['entity'])))
@@ -670,7 +680,7 @@ SPEC = Spec(
          "owned by live handles, nothing left after unload; a crash (double free) fails the "
          "case. Non-trivial: an object returned from C++ and calls after a delete, or unload "
          "with live handles in an inheritance chain.",
-    budget={'quick': 6, 'thorough': 48},
+    budget={'quick': 3, 'thorough': 48},
     size=lambda c: len(R.text(c['m'])) + 40 * len(c['steps']['steps']),
     sample_fn=lambda c: {'text': R.text(c['m'])[:900],
                          'history': [{k: v for k, v in s.items() if k != 'expect'}
